@@ -1995,3 +1995,144 @@ KNOWN_CAUSE = {
     "loop:index_of_array_result": "array-value-IndexOf-helper-keeps-a-count",
     "loop:range_over_array_of_pointers": "array-value-IndexOf-helper-keeps-a-count",
 }
+
+
+# ------------------------------------------------------------------------------------------------
+# fourth batch: run-time helpers written by hand (interface queries and comparison, string conversion/comparison)
+
+LOOP_BODIES4 = {
+    "iface_to_iface_queries": ('''
+type SizerQ interface {
+	Size() int32
+}
+
+type BothQ interface {
+	M() int32
+	Size() int32
+}
+
+type OtherQ interface {
+	Other() int32
+}
+
+type T1Q struct {
+	n string
+}
+
+func (t *T1Q) M() int32    { return 1 }
+func (t *T1Q) Size() int32 { return int32(len(t.n)) }
+''', '''
+	var e interface{} = &T1Q{"t" + itoa(i)}
+	var n int32
+	s, ok := e.(SizerQ)
+	if ok {
+		n += s.Size()
+	}
+	b := e.(BothQ)
+	m := b.(I)
+	n += m.M() + b.Size()
+	_, ok3 := e.(OtherQ)
+	var e2 interface{} = "str" + itoa(i)
+	_, ok4 := e2.(SizerQ)
+	if ok3 || ok4 {
+		n += 100
+	}
+	var s2 SizerQ = b.(SizerQ)
+	e = nil
+	return n + s2.Size()
+'''),
+    "iface_comparison": ("", '''
+	var e1 interface{} = "str" + itoa(i)
+	var e2 interface{} = "str" + itoa(i)
+	var e3 interface{} = &S{int32(i), "p" + itoa(i)}
+	var e4 interface{} = e3
+	var e5 interface{} = S{int32(i), "v" + itoa(i)}
+	var e6 interface{} = S{int32(i), "v" + itoa(i)}
+	var n int32
+	if e1 == e2 {
+		n += 1
+	}
+	if e3 == e4 {
+		n += 2
+	}
+	if e5 == e6 {
+		n += 4
+	}
+	if e1 != e3 {
+		n += 8
+	}
+	m := map[interface{}]string{}
+	m[e1] = "a" + itoa(i)
+	m[int32(i)] = "b"
+	m[e2] = "c" + itoa(i)
+	return n + int32(len(m)+len(m[e1]))
+'''),
+    "string_compare_and_switch": ("", '''
+	a := "key" + itoa(i)
+	b := "key" + itoa(i+1)
+	var n int32
+	if a < b {
+		n += 1
+	}
+	if a == "key"+itoa(i) {
+		n += 2
+	}
+	switch a {
+	case "key" + itoa(i+2):
+		n += 100
+	case b:
+		n += 200
+	case "key" + itoa(i):
+		n += 4
+	}
+	m := map[string]int32{a: 1, b: 2}
+	n += m["key"+itoa(i)] + m["nokey"+itoa(i)]
+	return n
+'''),
+    "bytes_and_runes": ("", '''
+	s := "héllo" + itoa(i) + "wörld"
+	bs := []byte(s)
+	bs = append(bs, '!')
+	t := string(bs)
+	var n int32
+	for j, r := range t {
+		n += int32(r) + int32(j)
+	}
+	u := string(bs[2:6])
+	c := bs[1:3]
+	bs = nil
+	return n + int32(len(u)+len(c)+len(t))
+'''),
+    "struct_equality": ('''
+type KSE struct {
+	a int32
+	b string
+}
+''', '''
+	k1 := KSE{int32(i), "s" + itoa(i)}
+	k2 := KSE{int32(i), "s" + itoa(i)}
+	k3 := k1
+	k3.b = k3.b + "x"
+	var n int32
+	if k1 == k2 {
+		n += 1
+	}
+	if k1 != k3 {
+		n += 2
+	}
+	m := map[KSE]string{k1: "one" + itoa(i)}
+	m[k2] = "two" + itoa(i)
+	m[k3] = "three"
+	return n + int32(len(m)+len(m[k1]))
+'''),
+    "print_of_refs": ("", '''
+	s := "out" + itoa(i%3)
+	p := &S{int32(i % 3), s}
+	if i%36 == 0 {
+		println(s, p.b, p.a, len(s))
+		print(s, "\\n")
+	}
+	return p.a
+'''),
+}
+LOOP_BODIES.update(LOOP_BODIES4)
